@@ -79,20 +79,119 @@ def cvc5_check(assertions, timeout_ms, models=False):
     return "unknown", txt, dt
 
 
-def decide(assertions, timeout_ms, cvc5_timeout_ms=None):
-    """-> (verdict, model, backend, seconds, note)"""
-    v, m, why, dt, _ = z3_check(assertions, timeout_ms)
+def cvc5_inproc(assertions, timeout_ms, values=None):
+    """cvc5 python API in this process on the SMT-LIB rendering -> ('sat'|'unsat'|'unknown', secs[, model dict]).
+    values: optional {name: z3 term}; when sat, their values are fetched with (get-value) and returned as text."""
+    t0 = time.time()
+    model = {}
+    try:
+        import cvc5
+        smt = to_smt2(assertions)
+        slv = cvc5.Solver()
+        slv.setOption("strings-exp", "true")
+        slv.setOption("produce-models", "true")
+        slv.setOption("tlimit-per", str(int(timeout_ms)))
+        parser = cvc5.InputParser(slv)
+        parser.setStringInput(cvc5.InputLanguage.SMT_LIB_2_6, smt, "q")
+        sm = parser.getSymbolManager()
+        result = "unknown"
+        while True:
+            cmd = parser.nextCommand()
+            if cmd.isNull():
+                break
+            out = str(cmd.invoke(slv, sm)).strip()
+            if out in ("sat", "unsat"):
+                result = out
+                break
+            if out.startswith("unknown"):
+                break
+        if result == "sat" and values:
+            for name, term in values.items():
+                try:
+                    p2 = cvc5.InputParser(slv, sm)
+                    p2.setStringInput(cvc5.InputLanguage.SMT_LIB_2_6, f"(get-value ({term.sexpr()}))", "gv")
+                    cmd = p2.nextCommand()
+                    txt = str(cmd.invoke(slv, sm)).strip()
+                    model[name] = _parse_get_value(txt)
+                except Exception as e:
+                    model[name] = f"<unavailable: {e}>"
+    except Exception:
+        result = "unknown"
+    dt = time.time() - t0
+    STATS["cvc5_calls"] += 1
+    STATS["cvc5_time"] += dt
+    if values is not None:
+        return result, dt, model
+    return result, dt
+
+
+def _parse_get_value(txt):
+    # "((term value))" -> python-ish value
+    t = txt.strip()
+    if t.startswith("((") and t.endswith("))"):
+        inner = t[2:-2]
+        # value is the last s-expression
+        depth = 0
+        for i in range(len(inner) - 1, -1, -1):
+            ch = inner[i]
+            if ch == ")":
+                depth += 1
+            elif ch == "(":
+                depth -= 1
+            if depth == 0 and (ch == " " or ch == "(") and i < len(inner) - 1:
+                val = inner[i:].strip() if ch == "(" else inner[i + 1:].strip()
+                if inner.rstrip().endswith('"'):
+                    # string literal: take from the first quote of the value
+                    q = inner.rfind(' "')
+                    val = inner[q + 1:]
+                break
+        else:
+            val = inner
+        if val.startswith('"') and val.endswith('"'):
+            return val[1:-1].replace('""', '"')
+        if val in ("true", "false"):
+            return val == "true"
+        if val.startswith("(- ") and val.endswith(")"):
+            try:
+                return -int(val[3:-1])
+            except ValueError:
+                return val
+        try:
+            return int(val)
+        except ValueError:
+            return val
+    return t
+
+
+def quick_sat(assertions, timeout_ms):
+    """feasibility: z3 with a short budget, then cvc5 in-process. -> 'sat' | 'unsat' | 'unknown'"""
+    v, _m, _w, _dt, _s = z3_check(assertions, min(timeout_ms, 400), want_model=False)
+    if v != "unknown":
+        return v
+    v2, _ = cvc5_inproc(assertions, timeout_ms)
+    return v2
+
+
+def decide(assertions, timeout_ms, cvc5_timeout_ms=None, values=None):
+    """-> (verdict, model, backend, seconds, note); model is a z3 ModelRef or (from cvc5) a dict name -> value"""
+    # staged: short z3, then cvc5 in-process (strings), then full z3, then cvc5 subprocess
+    v, m, why, dt, _ = z3_check(assertions, min(2000, timeout_ms))
+    if v != "unknown":
+        return v, m, "z3", dt, ""
+    vq, dtq, cmq = cvc5_inproc(assertions, min(5000, timeout_ms), values=values or {})
+    if vq == "unsat":
+        return "unsat", None, "cvc5", dt + dtq, f"z3: {why}"
+    if vq == "sat":
+        return "sat", cmq, "cvc5", dt + dtq, "model from cvc5"
+    v, m, why, dt1, _ = z3_check(assertions, timeout_ms)
+    dt += dtq + dt1
     if v != "unknown":
         return v, m, "z3", dt, ""
     if cvc5_timeout_ms is None:
         cvc5_timeout_ms = timeout_ms
-    v2, txt, dt2 = cvc5_check(assertions, cvc5_timeout_ms)
+    v2, dt2, cm = cvc5_inproc(assertions, cvc5_timeout_ms, values=values or {})
     if v2 == "unsat":
         return "unsat", None, "cvc5", dt + dt2, f"z3: {why}"
     if v2 == "sat":
-        # cvc5 says sat: try to obtain a z3 model with a longer budget for replay
-        v3, m3, why3, dt3, _ = z3_check(assertions, timeout_ms * 3)
-        if v3 == "sat":
-            return "sat", m3, "cvc5+z3", dt + dt2 + dt3, ""
-        return "sat", None, "cvc5", dt + dt2 + dt3, "no z3 model"
-    return "unknown", None, "z3+cvc5", dt + dt2, f"z3: {why}; cvc5: {txt[:200]}"
+        return "sat", cm, "cvc5", dt + dt2, "model from cvc5"
+    return "unknown", None, "z3+cvc5", dt + dt2, f"z3: {why}; cvc5: unknown"
